@@ -278,6 +278,9 @@ func (o *observation) candidates1(f frame) (cands []string, where string) {
 		if strings.Contains(text, "&MACEntry{") {
 			return allMacFields, where
 		}
+		if strings.Contains(text, "&Router{") {
+			return []string{"icmp6.LANRouters"}, where
+		}
 		if i := strings.Index(text, "//"); i >= 0 {
 			text = text[:i]
 		}
@@ -510,6 +513,7 @@ var rePanicClass = []struct {
 	{regexp.MustCompile(`close of closed channel`), "close-of-closed-channel"},
 	{regexp.MustCompile(`close of nil channel`), "close-of-nil-channel"},
 	{regexp.MustCompile(`concurrent map`), "concurrent-map-access"},
+	{regexp.MustCompile(`assignment to entry in nil map`), "nil-map-write"},
 	{regexp.MustCompile(`host table differ`), "table-invariant"},
 	{regexp.MustCompile(`nil pointer dereference`), "nil-dereference"},
 	{regexp.MustCompile(`index out of range|slice bounds out of range`), "index-out-of-range"},
@@ -528,7 +532,7 @@ func panicClass(msg string) string {
 func panicKey(op, class string) string {
 	partner := op
 	switch class {
-	case "send-on-closed-channel", "close-of-closed-channel":
+	case "send-on-closed-channel", "close-of-closed-channel", "nil-map-write":
 		partner = closerOf(op)
 	}
 	return "panic:" + pairName(op, partner) + ":" + class
